@@ -43,6 +43,8 @@ class Collector(object):
         self.seed = seed
         self.rule = rule
         self.t0 = time.time()
+        _current.update(prop=property_id, tier=tier, drawn=0)
+        self.foreign = {}           # violations of other properties seen by this batch (developer sweep only)
         self.evaluations = 0
         self.sigs = set()
         self.nontrivial_sigs = set()
@@ -100,6 +102,8 @@ class Collector(object):
             self.samples.append(res['sample'])
         for v in res.get('violations', ()):
             if v.get('prop') != self.property_id:
+                if os.environ.get('PONYSIM_DEV_SWEEP') and v.get('key') not in self.foreign:
+                    self.foreign[v.get('key')] = (strip_case(case), v)
                 continue
             key = v['key']
             if key not in self.violations:
@@ -203,6 +207,10 @@ def finish(col, pool, engine_mod_for, coverage_extra=None, assumptions=None, com
     """Classify violations, minimise + confirm the new ones, write evidence, print
     the verdict lines and return the exit code."""
     prop = col.property_id
+    if os.environ.get('PONYSIM_DEV_SWEEP') and col.foreign:
+        # developer aid: the SEQ engine evaluates the oracles of all its properties in every run
+        with open(os.path.join(os.environ['PONYSIM_DEV_SWEEP'], 'foreign_%s.json' % prop), 'w') as f:
+            json.dump(col.foreign, f, indent=1, sort_keys=True, default=repr)
     known = [k for k in load_known() if k.get('property') == prop]
     known_keys = dict((k['key'], k) for k in known if k.get('status') == 'known')
     reported = []
@@ -317,9 +325,33 @@ def budget_s(tier, quick=45, thorough=540):
     return quick if tier == 'quick' else thorough
 
 
+# The quick tier draws a fixed number of cases (the first N of the seeded stream), so that what it explores is a
+# function of VERIF_SEED and the code and not of the machine's speed; the wall-clock budget stays as the upper bound
+# (a slower machine explores a prefix).  Sized at about four fifths of what 16 workers do in the 45 s budget; for C13
+# and C17 the number counts base histories, each of which is followed by all of its fault variants.
+QUICK_CASES = {'C05': 14000, 'C09': 36000, 'C10': 36000, 'C11': 36000, 'C12': 36000, 'C13': 1900, 'C14': 22000,
+               'C15': 36000, 'C16': 36000, 'C17': 1400, 'C19': 13000, 'C20': 15000, 'C21': 13000, 'C22': 6000,
+               'C23': 36000, 'C32': 32000, 'C33': 34000, 'C35': 15000}
+_current = {'prop': None, 'tier': None, 'drawn': 0}
+
+
+def case_cap():
+    v = os.environ.get('VERIF_MAX_CASES')
+    if v:
+        try:
+            return int(v) or None
+        except ValueError:
+            pass
+    if _current['tier'] == 'quick' and not os.environ.get('VERIF_BUDGET_S'):
+        return QUICK_CASES.get(_current['prop'])
+    return None
+
+
 def timed_cases(gen, deadline):
-    """Stop drawing cases once the wall-clock deadline has passed."""
+    """Stop drawing cases once the wall-clock deadline has passed or the tier's case count is reached."""
+    cap = case_cap()
     for case in gen:
-        if time.time() >= deadline:
+        if time.time() >= deadline or (cap is not None and _current['drawn'] >= cap):
             return
+        _current['drawn'] += 1
         yield case
